@@ -2,6 +2,8 @@
 """case generator for the rules port: python3 gen.py <category> > cases"""
 import itertools, random, sys
 
+SEED = 0   # set by vlib/c11.py from VERIF_SEED
+
 U64 = 2**64 - 1
 EDGES = [2**31 - 2, 2**31 - 1, 2**31, 2**31 + 1, 2**32 - 1, 2**32, 2**32 + 1,
          2**63 - 1, 2**63, 2**63 + 1, U64 - 1, U64]
@@ -54,7 +56,7 @@ def small_tape(lc, rc, scan=0):
 
 def gen_mk_small():
     # every single block, counts 0..12, once on each side
-    rng = random.Random(1)
+    rng = random.Random(SEED * 1000 + 1)
     for a, b, c, d in itertools.product(range(13), repeat=4):
         if (a + b + c + d) % 2:
             yield mkrule(([a], []), ([b], []), ([c], []), ([d], []))
@@ -93,7 +95,7 @@ def gen_apply_small():
                 yield "countapps %s %s" % (t, r)
 
 def gen_apply_small22():
-    rng = random.Random(2)
+    rng = random.Random(SEED * 1000 + 2)
     for n in range(60000):
         nl, nr = rng.randrange(0, 3), rng.randrange(0, 3)
         lc = [rng.randrange(1, 13) for _ in range(nl)]
@@ -125,7 +127,7 @@ def big_diff(rng):
     return rng.choice([-1, 1]) * rng.randrange(0, 2**31)
 
 def gen_apply_big():
-    rng = random.Random(3)
+    rng = random.Random(SEED * 1000 + 3)
     for n in range(90000):
         nl, nr = rng.randrange(0, 4), rng.randrange(0, 4)
         idx = [(False, i) for i in range(nl)] + [(True, i) for i in range(nr)]
@@ -176,7 +178,7 @@ def gen_apply_big():
         yield "%s %s %s" % ("applyrule" if n % 4 else "countapps", t, rule(items))
 
 def gen_mk_big():
-    rng = random.Random(4)
+    rng = random.Random(SEED * 1000 + 4)
     for n in range(80000):
         lens = []
         for v in range(4):
@@ -224,7 +226,7 @@ def gen_mk_big():
         yield mkrule(*vs)
 
 def gen_panic():
-    rng = random.Random(5)
+    rng = random.Random(SEED * 1000 + 5)
     for n in range(40000):
         nl, nr = rng.randrange(0, 3), rng.randrange(0, 3)
         lc = [rng.randrange(0, 30) for _ in range(nl)]
